@@ -308,17 +308,18 @@ pub fn make_client(
     signer: &SignatureSecretKey,
     suite: CipherSuite,
 ) -> SimClient {
-    mls_rs::Client::builder()
+    let legacy = rules.cfg.lock().unwrap().legacy;
+    let b = mls_rs::Client::builder()
         .key_package_repo(kpstore.clone())
         .psk_store(pskstore.clone())
         .group_state_storage(gstore.clone())
         .identity_provider(identity.clone())
         .mls_rules(rules.clone())
         .crypto_provider(crypto.clone())
-        .custom_proposal_type(mls_rs::group::proposal::ProposalType::new(0xF000))
-        .extension_type(mls_rs::extension::ExtensionType::new(0xF001))
-        .signing_identity(signing_identity.clone(), signer.clone(), suite)
-        .build()
+        .custom_proposal_type(mls_rs::group::proposal::ProposalType::new(0xF000));
+    // a "legacy" device does not know the group-context extension type the other devices use
+    let b = if legacy { b } else { b.extension_type(mls_rs::extension::ExtensionType::new(0xF001)) };
+    b.signing_identity(signing_identity.clone(), signer.clone(), suite).build()
 }
 
 impl World {
@@ -381,6 +382,7 @@ impl World {
         {
             let mut r = rules.cfg.lock().unwrap();
             r.custom_needs_path = self.cfg.knob("custom-path").unwrap_or(1) == 1;
+            r.legacy = self.legacy() == Some(i);
             let mut eo = EncryptionOptions::default();
             eo.encrypt_control_messages = self.cfg.encrypt_handshake;
             r.encrypt = eo;
@@ -430,6 +432,45 @@ impl World {
             crashed: false,
             generation,
         })
+    }
+
+    /// C10: the party whose devices do not support extension type 0xF001
+    pub fn legacy(&self) -> Option<usize> {
+        (self.cfg.knob("legacy").is_some() && self.cfg.n_parties >= 4).then(|| self.cfg.n_parties - 2)
+    }
+
+    pub fn ctx_has_f001(&self, g: usize, epoch: u64) -> bool {
+        self.groups[g]
+            .records
+            .get(&epoch)
+            .map(|r| crate::c13::ctx_has_extension(&r.ctx, 0xF001))
+            .unwrap_or(false)
+    }
+
+    /// would the legacy party be in the group, next to extension 0xF001, after this commit - as far as the model can
+    /// tell for certain? (None: cannot tell)
+    pub fn legacy_clash(&self, p: usize, g: usize, epoch: u64, spec: &CommitSpec, refs: &[u64]) -> Option<bool> {
+        let l = self.legacy()?;
+        let member = self.groups[g].members.get(&epoch).map(|m| m.contains_key(&l)).unwrap_or(false);
+        let has = self.ctx_has_f001(g, epoch);
+        if member && has {
+            return None;
+        }
+        if spec.reinit.is_some() {
+            return None;
+        }
+        // by-reference removals of the legacy party make the outcome depend on filtering: not certain
+        for r in refs {
+            match &self.msgs[r].pspec {
+                Some(PropSpec::Remove { q }) if *q == l => return None,
+                Some(PropSpec::SelfRemove) if self.msgs[r].sender == l => return None,
+                _ => {}
+            }
+        }
+        let stays = member && !spec.removes.contains(&l) && p != usize::MAX;
+        let added = !member && spec.adds.contains(&l);
+        let ext_after = has || spec.gce.is_some();
+        Some((stays || added) && ext_after)
     }
 
     pub fn csp(&self, p: usize) -> crypto::SimSuite {
@@ -1049,6 +1090,14 @@ impl World {
                 Ok(true)
             }
             Ok((out, secrets)) => {
+                if self.legacy_clash(p, g, epoch, spec, &cached_refs) == Some(true) {
+                    return Err(Violation::new(
+                        &prop,
+                        "unsupported-capabilities",
+                        "extension-unsupported-by-a-member-committed".into(),
+                        format!("P{p} built a commit after which g{g} carries extension type 0xF001 while the device of P{} does not support it", self.legacy().unwrap_or(0)),
+                    ));
+                }
                 if !spec.templates.is_empty() {
                     return Err(Violation::new(
                         &prop,
@@ -2332,6 +2381,11 @@ impl World {
                 let cls = err_class(&e);
                 self.ev(format!("ext-commit P{p} g{g} e{latest} err {cls}"));
                 self.stats.result(&format!("ext_commit:err:{cls}"));
+                if self.legacy() == Some(p) && self.ctx_has_f001(g, latest) {
+                    // a device that does not support an extension type of the group context cannot join
+                    self.stats.probe("legacy-device-external-commit-refused");
+                    return Ok(true);
+                }
                 if psk.is_none() {
                     // same storage as an earlier membership of this group (C07's returning member)
                     let gid = self.groups[g].gid.clone();
@@ -2359,6 +2413,14 @@ impl World {
                 Ok(true)
             }
             Ok((group, cm)) => {
+                if self.legacy() == Some(p) && self.ctx_has_f001(g, latest) {
+                    return Err(Violation::new(
+                        &prop,
+                        "unsupported-capabilities",
+                        "unsupporting-device-joined-by-external-commit".into(),
+                        format!("P{p}, whose device does not support extension type 0xF001, built an external commit into g{g} whose context carries that extension"),
+                    ));
+                }
                 let id = self.new_msg_id();
                 let bytes = cm.to_bytes().unwrap_or_default();
                 crate::oracles::on_wire(self, &bytes, "commit")?;
